@@ -209,8 +209,10 @@ PROGRAMS = [
     "def f():\n    global a\n    a = 1\n",
     "x = 5\ny = b'a'\nz = ...\n",
     "y = 1\nx = foo()\n",
-    "for _ in range(3):\n    pass\n_ = 0\n_total = 0\nprint(_)\n",
 ]
+# only for the C10 pattern x program grid: identifiers made of / framed by underscores (as a C11 BASE it would be
+# generalised into `___` and `__total_`, which are no placeholders of the identifiers they stand for)
+UNDERSCORE_PROGRAMS = ["for _ in range(3):\n    pass\n_ = 0\n_total = 0\nprint(_)\n"]
 PATTERNS = [
     "_acc_ = 0\nfor ___ in ___:\n    _acc_ = _acc_ + __e__",
     "_x_ = 0", "_x_ = 1", "_x_ = None", "_x_ = True", "_x_ = ''", "_x_ = 5", "_x_ = 1.0", "_x_ = False",
